@@ -13,7 +13,14 @@ pub fn probe(env: &BTreeMap<String, String>, requests: &[Value]) -> Result<Vec<V
     let mut cmd = Command::new(exe);
     cmd.arg("envprobe").env_clear();
     for (k, v) in env {
-        cmd.env(k, v);
+        // "\u{1}bytes:<hex>" stands for a value that is not valid UTF-8
+        if let Some(hex) = v.strip_prefix("\u{1}bytes:") {
+            use std::os::unix::ffi::OsStringExt;
+            let bytes: Vec<u8> = (0..hex.len() / 2).filter_map(|i| u8::from_str_radix(&hex[2 * i..2 * i + 2], 16).ok()).collect();
+            cmd.env(k, std::ffi::OsString::from_vec(bytes));
+        } else {
+            cmd.env(k, v);
+        }
     }
     cmd.current_dir("/").stdin(Stdio::piped()).stdout(Stdio::piped()).stderr(Stdio::null());
     let mut child = cmd.spawn().map_err(|e| format!("spawn: {}", e))?;
